@@ -78,14 +78,14 @@ CLAIMED = {
     engine="driver-ai"),
  "C03": dict(
     category="other",
-    text="Clauses of 'the signature is the FIPS 204 Sign output for the drawn rnd', each decided for every key, message, context <= 255 and generator output from one abstract run per signing entry point (pure + 3 pre-hash functions): S1 exactly one 32-byte generator request fills rnd and nothing unmodelled is called (no other input); S2 M' is formatted as Alg. 2/4 (C06 rules R1-R3 on the sign side: domain byte, exact length byte, whole ctx, FIPS OIDs, digest lengths); S3 mu = H(tr|M',64), rho'' = H(K|rnd|mu,64) with K the key field other than rho and rnd the generator bytes; S4 the signing loop is peeled three times: ExpandMask instance r of iteration n absorbs rho''|IntegerToBytes(n*l+r,2), and the loop invariant carries kappa = 0 (mod l): every path back to the loop head adds exactly l; S5 c~ = first lambda/4 bytes of H(mu|w1Encode(w1)), SampleInBall absorbs all of c~; S6 the path condition at the sigEncode call bounds ||z||, ||r0||, ||ct0|| and the hint weight by exactly the Alg. 7 thresholds; S7 A-hat = ExpandA(sk.rho) with FIPS index bytes and order; S8 Decompose/HighBits/LowBits, MakeHint, mod+- equal their FIPS definitions on the whole domain (C15 engine); S9 the ring arithmetic of the loop body, symbolically (product symbols modulo q): w = NTT^-1(A-hat o NTT(y)), c-hat = NTT(c), c*s1 / c*s2 / c*t0 from the key precomputes with the Montgomery factor cancelling, z = y + c*s1, w1 = HighBits(w), LowBits(w - c*s2), MakeHint(-c*t0, w - c*s2 + c*t0). With C18 F every step of Sign_internal is accounted for; what remains trusted is the hash implementations and that NTT diagonalises the negacyclic product.",
+    text="Clauses of 'the signature is the FIPS 204 Sign output for the drawn rnd', each decided for every key, message, context <= 255 and generator output from one abstract run per signing entry point (pure + 3 pre-hash functions): S1 exactly one 32-byte generator request fills rnd and nothing unmodelled is called (no other input); S2 M' is formatted as Alg. 2/4 (C06 rules R1-R3 on the sign side: domain byte, exact length byte, whole ctx, FIPS OIDs, digest lengths); S3 mu = H(tr|M',64), rho'' = H(K|rnd|mu,64) with K the key field other than rho and rnd the generator bytes; S4 the signing loop is peeled three times: ExpandMask instance r of iteration n absorbs rho''|IntegerToBytes(n*l+r,2), and the loop invariant carries kappa = 0 (mod l): every path back to the loop head adds exactly l; S5 c~ = first lambda/4 bytes of H(mu|w1Encode(w1)), SampleInBall absorbs all of c~; S6 the path condition at the sigEncode call bounds ||z||, ||r0||, ||ct0|| and the hint weight by exactly the Alg. 7 thresholds; S7 A-hat = ExpandA(sk.rho) with FIPS index bytes and order; S8 Decompose/HighBits/LowBits, MakeHint, mod+- equal their FIPS definitions on the whole domain (C15 engine); S9 the ring arithmetic of the loop body, symbolically (product symbols modulo q): w = NTT^-1(A-hat o NTT(y)), c-hat = NTT(c), c*s1 / c*s2 / c*t0 from the key precomputes with the Montgomery factor cancelling, z = y + c*s1, w1 = HighBits(w), LowBits(w - c*s2), MakeHint(-c*t0, w - c*s2 + c*t0). With C18 F the arithmetic steps of Sign_internal are accounted for. Still not decided (hence level 'other'): SampleInBall's shuffle as an algorithm (only its absorb list and output weight), the fill order inside the rejection samplers, HintBitPack and the 4/6-bit w1Encode layout beyond their byte ranges; trusted: hash implementations, NTT diagonalisation (mathematics).",
     design_ref="DESIGN.md §4 C03",
     note="Level 'other': necessary structural clauses, not the byte-for-byte equality. Quick = ML-DSA-44 and -65 (K != L is needed to separate kappa += l from += k), thorough = all three. Trusted: abstract interpreter soundness, hash model.",
     technique="abstract interpretation over monomorphic MIR: symbolic hash absorb lists, generator probes, loop peeling + congruence invariants, path facts on tracked call results; piecewise-affine kernel exactness",
     engine="driver-ai"),
  "C04": dict(
     category="other",
-    text="Clauses of 'key generation is the FIPS 204 function of the seed', decided for every seed / generator output and all three parameter sets from one abstract run of keygen_from_seed and try_keygen_with_rng: K1 one 32-byte generator request fills xi, both entry points run the same key_gen_internal instance once and create identical hash instances, a failing generator gives Err with nothing computed; K2 (rho, rho', K) = H(xi|k|l) read as 32|64|32 bytes with the Table 1 constants in this order; K3 ExpandA: k*l SHAKE128 instances in row-major order absorbing rho|s|r; K4 ExpandS: l+k SHAKE256 instances absorbing rho'|IntegerToBytes(r,2); K5 tr = H(whole pkEncode(rho,t1), 64); K6 exact-copy provenance: pk.rho and sk.rho are H(xi|k|l)[0..32], sk.K is [96..128], pk.tr and sk.tr the 64 bytes of the tr hash, none rewritten; K7 CoeffFromThreeBytes (all 2^24 triples incl. the q-1/q boundary), CoeffFromHalfByte (both eta), Power2Round (all of Z_q) equal their FIPS definitions (C15 engine); K8 Power2Round applied once after full reduction of all coefficients; K10 the ring arithmetic symbolically (product symbols): the first NTT is applied to exactly s1, NTT^-1 to sum_j A-hat[i][j] o NTT(s1)[j] with unit coefficients modulo q, Power2Round to that + s2; K9 a symbolic run of keygen_from_seed followed by into_bytes (sampled coefficients and Power2Round outputs as named symbols, linear forms modulo q through the transforms) shows pkEncode receives exactly t1 and skEncode exactly the sampled s1, s2 (t0 congruent with unit coefficient): the NTT/Montgomery precompute and its inverse are transparent. With C18 F every step of KeyGen_internal is accounted for; trusted: hash implementations, NTT diagonalisation (mathematics).",
+    text="Clauses of 'key generation is the FIPS 204 function of the seed', decided for every seed / generator output and all three parameter sets from one abstract run of keygen_from_seed and try_keygen_with_rng: K1 one 32-byte generator request fills xi, both entry points run the same key_gen_internal instance once and create identical hash instances, a failing generator gives Err with nothing computed; K2 (rho, rho', K) = H(xi|k|l) read as 32|64|32 bytes with the Table 1 constants in this order; K3 ExpandA: k*l SHAKE128 instances in row-major order absorbing rho|s|r; K4 ExpandS: l+k SHAKE256 instances absorbing rho'|IntegerToBytes(r,2); K5 tr = H(whole pkEncode(rho,t1), 64); K6 exact-copy provenance: pk.rho and sk.rho are H(xi|k|l)[0..32], sk.K is [96..128], pk.tr and sk.tr the 64 bytes of the tr hash, none rewritten; K7 CoeffFromThreeBytes (all 2^24 triples incl. the q-1/q boundary), CoeffFromHalfByte (both eta), Power2Round (all of Z_q) equal their FIPS definitions (C15 engine); K8 Power2Round applied once after full reduction of all coefficients; K10 the ring arithmetic symbolically (product symbols): the first NTT is applied to exactly s1, NTT^-1 to sum_j A-hat[i][j] o NTT(s1)[j] with unit coefficients modulo q, Power2Round to that + s2; K9 a symbolic run of keygen_from_seed followed by into_bytes (sampled coefficients and Power2Round outputs as named symbols, linear forms modulo q through the transforms) shows pkEncode receives exactly t1 and skEncode exactly the sampled s1, s2 (t0 congruent with unit coefficient): the NTT/Montgomery precompute and its inverse are transparent. With C18 F the arithmetic steps of KeyGen_internal are accounted for. Still not decided (hence level 'other'): the fill order inside RejNTTPoly / RejBoundedPoly (which accepted sample becomes which coefficient); trusted: hash implementations, NTT diagonalisation (mathematics).",
     design_ref="DESIGN.md §4 C04",
     note="Level 'other': necessary structural clauses. Trusted: abstract interpreter soundness, hash model, lib/spec.py transcription.",
     technique="abstract interpretation over monomorphic MIR: symbolic hash absorb lists and read offsets, generator probes, exact-copy provenance tags on byte arrays; piecewise-affine kernel exactness",
@@ -120,7 +120,7 @@ CLAIMED = {
     engine="driver-ai"),
  "C08": dict(
     category="other",
-    text="R1: HintBitUnpack run on 78 (x3 sets) abstract input classes generated from (k, omega) - count above omega, count below the running index (every polynomial, two prefix shapes and the boundary member), non-increasing / repeated positions, non-zero unused bytes, each at first/middle/last position - every member of an error class is definitely rejected, every member of a canonical class definitely accepted. R2: encoder and decoder of sig/pk/sk use identical byte ranges that tile [0, LEN) and equal the FIPS 204 layout. R3: BitUnpack accepts exactly [-a, b] for every (a, b) in use (total when a+b+1 is a power of two). R4: bit-exact re-encoding - with every input bit a boolean symbol, skEncode(skDecode(b)) = b and pkEncode(pkDecode(b)) = b for every accepted b, and sigEncode(sigDecode(s)) reproduces c-tilde and all z fields of every accepted s bit for bit; hence decoding is injective there (no second encoding of the same key / response vector). Not decided: re-encode identity of the hint section for every accepted string (symbolic indices) - that part rests on the class family of R1.",
+    text="R1: HintBitUnpack run on 78 (x3 sets) abstract input classes generated from (k, omega) - count above omega, count below the running index (every polynomial, two prefix shapes and the boundary member), non-increasing / repeated positions, non-zero unused bytes, each at first/middle/last position - every member of an error class is definitely rejected, every member of a canonical class definitely accepted. R2: encoder and decoder of sig/pk/sk use identical byte ranges that tile [0, LEN) and equal the FIPS 204 layout. R3: BitUnpack accepts exactly [-a, b] for every (a, b) in use (total when a+b+1 is a power of two). R5: FIPS bit layout - coefficient i of BitUnpack / SimpleBitUnpack is exactly b - sum 2^t bit(i*c+t) resp. sum 2^t bit(i*c+t) of the little-endian bit string, for every (a,b) in use. R4: bit-exact re-encoding - with every input bit a boolean symbol, skEncode(skDecode(b)) = b and pkEncode(pkDecode(b)) = b for every accepted b, and sigEncode(sigDecode(s)) reproduces c-tilde and all z fields of every accepted s bit for bit; hence decoding is injective there (no second encoding of the same key / response vector). Not decided: re-encode identity of the hint section for every accepted string (symbolic indices) - that part rests on the class family of R1.",
     design_ref="DESIGN.md §4 C08",
     note="The class family is a cover of the malformation taxonomy, not a partition of all byte strings (exhaustive: false in evidence). Trusted: abstract interpreter soundness; class verdicts transcribed from Alg. 21.",
     technique="abstract interpretation on abstract input classes (definite accept/reject) + slice-range layout probes",
